@@ -400,7 +400,14 @@ impl Envelope {
     /// this particular recipient.
     #[cfg(feature = "encrypt")]
     fn first_plaintext_in_sealed_messages(sealed_messages: &[SealedMessage], private_key: &dyn Decrypter) -> Result<Vec<u8>> {
+        // A sealed message can only be opened by a key of the encapsulation scheme
+        // it was made for. Skip the others: handing an ML-KEM key a ciphertext of
+        // another ML-KEM level panics in the decapsulation instead of failing.
+        let scheme = private_key.encapsulation_private_key().encapsulation_scheme();
         for sealed_message in sealed_messages {
+            if sealed_message.encapsulation_scheme() != scheme {
+                continue;
+            }
             let a = sealed_message.decrypt(private_key).ok();
             if let Some(plaintext) = a {
                 return Ok(plaintext);
